@@ -1030,7 +1030,20 @@ func (vc *VC) addAllocMono(st *State, old, nw string) {
 	st.assume("(forall ((r Int)) (! (=> (select " + old + " r) (select " + nw + " r)) :pattern ((select " + nw + " r))))")
 }
 
+// havocAllHeap forgets the whole program heap. Ghost components (state that only specifications change) are
+// kept: they change only through the modifies clauses of contracts that name them.
 func (vc *VC) havocAllHeap(st *State) {
+	ghost := map[string]string{}
+	for _, comp := range sortedKeys(vc.compSort) {
+		if strings.HasPrefix(comp, "ghost:") {
+			ghost[comp] = vc.heapGet(st, comp, vc.compSort[comp])
+		}
+	}
+	defer func() {
+		for c, t := range ghost {
+			st.heap[c] = t
+		}
+	}()
 	vc.havocAlloc(st)
 	vc.nepoch++
 	st.epoch = vc.nepoch
@@ -1282,6 +1295,7 @@ func (vc *VC) execRange(st *State, x *ast.RangeStmt, label string) []Outcome {
 				k := vc.freshValue(cs, "key", u.Key())
 				kt := vc.mapKeyTerm(x, k)
 				cs.assume(sel2(domH, mref, kt))
+				cs.assume(smtNot(smtEq(mref, "0")))
 				if x.Key != nil {
 					if id, ok := x.Key.(*ast.Ident); !ok || id.Name != "_" {
 						if x.Tok == token.DEFINE {
